@@ -1050,7 +1050,10 @@ class UniformMeshGeometryConverter(GeometryConverter):
             )
             src = sourceAssem.spatialLocator
             newLoc = self.convReactor.core.spatialGrid[src.i, src.j, 0]
-            self.convReactor.core.add(newAssem, newLoc)
+            # carry the location first: the mapped volume-integrated parameters already refer to this
+            # position, so moveTo must not see a symmetry-factor change and rescale them again
+            newAssem.spatialLocator = newLoc
+            self.convReactor.core.add(newAssem)
 
     def _clearStateOnReactor(self, reactor, cache):
         """
